@@ -174,6 +174,25 @@ pub enum PMsg {
 #[cfg(feature = "cluster")]
 impl ractor::Message for PMsg {}
 
+/// A narrower message type in front of `PMsg` for `ActorRef::get_derived` (only work items).
+pub struct DWork(pub Work);
+impl From<DWork> for PMsg {
+    fn from(d: DWork) -> PMsg {
+        PMsg::Work(d.0)
+    }
+}
+impl TryFrom<PMsg> for DWork {
+    type Error = ();
+    fn try_from(m: PMsg) -> Result<DWork, ()> {
+        match m {
+            PMsg::Work(w) => Ok(DWork(w)),
+            _ => Err(()),
+        }
+    }
+}
+#[cfg(feature = "cluster")]
+impl ractor::Message for DWork {}
+
 pub fn reply_fn(seq: u64) -> u64 {
     crate::prng::mix(seq ^ 0xabcdef)
 }
